@@ -450,6 +450,10 @@ func (x *Exec) Step(i int, ev Ev) {
 		if ev.Key != nil {
 			key = x.resolveKey(ev.Key)
 			keyTok = hx(key)
+			if key == "" {
+				// the admin request carries the key as a plain string: an empty key IS "unlock by name" (ipc.go)
+				keyTok = "~"
+			}
 		}
 		e.eline = []string{"ipcu", hx(unhx(ev.Name)), keyTok}
 		var resp ipc.UnlockResponse
